@@ -187,6 +187,15 @@ Section Spec.
                           | None => [] end) (node_ids g)
     ++ (if dc then [] else map (fun p => (pkg_import_name p, SComponent)) (pkgs_in_order ord)).
 
+  (** C03: what each sharer of an import needs from it (export names of the instance types involved) *)
+  Definition kind_export_names (k : kid) : list str :=
+    match u_inst_exports u k with Some ex => map (fun p : name * kid => nstr (fst p)) ex | None => [] end.
+  Definition spec_import_needs : list (str * list str) :=
+    flat_map (fun n => map (fun p : name * kid => (canon (nstr (fst p)), kind_export_names (snd p))) (unsat_args n)) (node_ids g)
+    ++ flat_map (fun n => match get_node g n with
+                          | Some nd => match nk nd with NImport nm => [(canon (nstr nm), kind_export_names (nitem nd))] | _ => [] end
+                          | None => [] end) (node_ids g).
+
   (** C03: exported names and sorts *)
   Definition spec_export_names : list (str * sort) :=
     map (fun p : name * nat => (nstr (fst p), node_sort (snd p))) (exports g).
